@@ -600,3 +600,37 @@ PROPS["C19"] = {
     "trusted": ["clvmr (interpreter) and chia-puzzles (singleton_top_layer_v1_1 bytes and hash) are external: the puzzle's behaviour is the hypothesis structure SingletonSpec; its conclusion is checked by real runs",
                 "clvm-derive / clvm-traits decoders (list, curry, transparent representations; decode_number) are modelled by hand from their source and compared on every case"],
 }
+
+PROPS["C18"] = {
+        "extractors": [],
+        "harness": "C18",
+        "theorems": [
+            "ChiaModel.C18.map_refinement", "ChiaModel.C18.keys_unique", "ChiaModel.C18.hashes_unique",
+            "ChiaModel.C18.history_refinement", "ChiaModel.C18.history_refinement_empty",
+            "ChiaModel.C18.root_hash", "ChiaModel.C18.check_good", "ChiaModel.C18.proof_valid",
+            "ChiaModel.C18.proofOf_stored", "ChiaModel.C18.proof_valid_after_recompute",
+            "ChiaModel.C18.fail_unchanged", "ChiaModel.C18.fail_unchanged_batch_validation",
+            "ChiaModel.C18.batch_commit_succeeds", "ChiaModel.C18.insert_succeeds",
+            "ChiaModel.C18.linv_preserved_insert", "ChiaModel.C18.linv_preserved_upsert",
+            "ChiaModel.C18.inserts_upserts_history",
+            "ChiaModel.C18.reload_partial", "ChiaModel.C18.block_format_roundtrip",
+            "ChiaModel.C18.former_witness_batch_rejected", "ChiaModel.C18.former_witness_upsert_rejected",
+            "ChiaModel.C18.former_witness_failed_batch_unchanged",
+        ],
+        "gen_theorems": [],
+        "open": [
+            "InvPreserved (inv_preserved): wf and LInv are preserved by insert/delete/upsert/batch/hashes - `def InvPreserved : Prop` (proved so far: LInv is preserved by insert at any location and by upsert - linv_preserved_insert, linv_preserved_upsert; LInv alone is not inductive for delete, which needs the global reachability part of wf); checked at run time after every step (tags NEWFAIL:wf / NEWFAIL:linv)",
+            "AbsCommutes (abs_commutes, refinement L2->L1): abs (op s) = opL1 (abs s) and equal success flags on well-formed states - `def AbsCommutes : Prop`; checked at run time on every step (tag ABSFAIL)",
+            "HashesCommute: calculate_lazy_hashes on blocks = HT.recompute on the abstraction, and get_proof_of_inclusion = HT.proofOf - `def HashesCommute : Prop`; checked at run time after every `hashes` op (tag ABSFAIL)",
+            "ReloadCaches (second half of reload): the cache rebuilt by MerkleBlob::new equals the live cache up to free-list order - `def ReloadCaches : Prop`; observed as reload=same on every step",
+            "IntegrityOfWf: wf s -> check_integrity s = ok and LInv s - `def IntegrityOfWf : Prop`; checked at run time (tags NEWFAIL:integrity, NEWFAIL:linv)",
+            "fail_unchanged for calculate_lazy_hashes (it can only fail on a blob whose reachable part is not a tree)",
+        ],
+        "trivial": r"^(-|bad-op|integrity=ok content=eq.*)$",
+        "level": "other",
+        "rule": "operation histories, one per line (`C18 hist op;op;...`), ops ins (auto / left:<key> / right:<key>, incl. unknown reference keys), ups, del, batch n, hashes; after EACH op the real MerkleBlob and the Lean index-level model print: Ok/Err/panic, SHA-256 of the exact blob bytes, sorted key/values, check_integrity, reload (MerkleBlob::new(bytes): loads, same key/values, integrity ok); after `hashes` the root hash and per key proof.valid() and proof.root == root. Generated: the histories on which the code broke the property before commits 934ac687/fbd3f8c2 and neighbours; exhaustive histories of length <= 2 (quick, + 1500 random of length 3) / <= 3 (thorough, first op restricted to ops that can succeed on the empty blob) over an alphabet of 64 ops on 3 keys / 3 hashes; batch sizes 0..9 on trees of 0,1,2,3,5,8,17 leaves; insert n, delete down to 0/1/2 leaves in random order, insert again (free-index reuse, promotion to the root); random histories of 1-60 ops over 6 keys / 8 hashes and over random i64 keys (negative included) with random 32-byte hashes, incl. batches with present/repeated keys and hashes and upserts to another leaf's hash. `C18 prop <history>[ @dupbatch][ @upshash]` lines evaluate the PROPERTY on the real code against a BTreeMap oracle (integrity, content, failed-op-unchanged, reload, root = independent recomputation and proofs); the model side prints the prescription; the markers (computed from the history alone) name the two classes of operation repaired by those commits. non-trivial = a distinct `hist` line",
+        "level_text": "Model + correspondence + partial proofs. Lean: (L1, plain trees, all proved, unbounded) every insert/upsert/delete/batch insert acts on the key->value content exactly like a plain map when it succeeds and leaves the tree unchanged when it fails (map_refinement); keys and leaf hashes stay pairwise distinct (keys_unique, hashes_unique); by induction over ANY finite history from the empty blob the content equals that of a plain map subjected to the same successful operations (history_refinement); lazy hash recomputation on a tree satisfying the dirtiness invariant stores the independently recomputed Merkle root and cleans every node (root_hash); every key has an inclusion proof that is valid and ends in that root, also when read off the stored hashes (proof_valid, proof_valid_after_recompute). (L2, index-level model of MerkleBlob, byte-exact) a failed insert/upsert/delete/batch insert leaves the blob unchanged (fail_unchanged, under the decidable local invariant LInv that the driver evaluates on every state; for a batch: failing the validation changes nothing, fail_unchanged_batch_validation, and a validated batch cannot fail, batch_commit_succeeds - incl. termination of the pseudo-random walk and of the breadth-first search); insert at any location and upsert preserve LInv (linv_preserved_insert, linv_preserved_upsert), so along any history of inserts and upserts LInv holds (inserts_upserts_history); the block byte format round-trips and reloading the serialized bytes yields the same blocks (reload_partial). The three histories on which the code violated the property before the repairs are kept as regression theorems (former_witness_*). Open (runtime-checked, not proved): preservation of the L2 invariant by delete/upsert/batch/hashes, the refinement L2->L1. Every model output is compared with the real MerkleBlob after every op of every history (blob bytes by SHA-256).",
+        "level_note": "Trusted: Lean kernel + standard axioms for the proved part; the hand-written L2 model = code only on the histories run; KeyId/ValueId i64 modelled by their 64-bit patterns; MerkleBlob::new decodes blocks lazily, the model decodes all (equal on every blob the operations produce, block_format_roundtrip). Repaired in /repo: 934ac687 (batch_insert), fbd3f8c2 (upsert) - recorded as `fixed:` lines; no known finding remains for C18.",
+        "technique": "Lean 4 two-level model (byte-exact index level + plain trees) with refinement checked at run time; Lean theorems for the tree level, the byte format and failed-operation atomicity; differential correspondence on operation histories",
+        "trusted": ["open statements are validated only by the run-time checks of the driver on the explored histories (tags ABSFAIL / NEWFAIL)"],
+    }
